@@ -106,6 +106,13 @@ type (
 	StrIntM map[string]int
 )
 
+// Hdr is a named map with methods whose names can collide with keys (like http.Header).
+type Hdr map[string]string
+
+func (h Hdr) Get(k string) string { return h[k] }
+func (h Hdr) Len() int            { return len(h) }
+func (h Hdr) Del(k string)        { delete(h, k) }
+
 // Sum is a method on a bridged named slice: sees the live contents.
 func (s IntSl) Sum() int {
 	t := 0
@@ -199,6 +206,7 @@ func init() {
 	reg("map[uint16]int", map[uint16]int(nil))
 	reg("map[int]int", map[int]int(nil))
 	reg("StrIntM", StrIntM(nil))
+	reg("Hdr", Hdr(nil))
 	reg("S", S{})
 	reg("*S", (*S)(nil))
 	reg("Inner", Inner{})
